@@ -27,7 +27,11 @@ RULE = ("histories of 1..60 operations (call / finish of a blocked body / drop i
         "common clock ticks), for alru_cache, acached_per_instance and alazy_constant.  VALUE KINDS: a body returns either its unique "
         "integer 100 + call id or, chosen per (function, logical argument tuple) in 40% of the functions (per lazy constant in 25%), a "
         "payload - None (3x weight), 0, False, '', (), [], (None,), 2**70, 0.0, {} - so that entries whose stored value is None / falsy "
-        "are looked up again (hits expected), evicted and dropped like any other; the body-run log, not the value, says whether a body ran.  distinct = different case after dropping meta; non-trivial = the reference cache sees >= 1 hit, "
+        "are looked up again (hits expected), evicted and dropped like any other; the body-run log, not the value, says whether a body ran.  "
+        "INSTANCE GENERATIONS (quick 100, thorough 2500, drawn last): alru_cache with the default key on a method called on 1-3 slots; "
+        "`drop` releases the instance in a slot (+ gc) and the next call on the slot is made on a fresh instance (generation + 1; same address "
+        "when the dead one was freed), maxsize in {1,2,3,4,128}, remaining arguments from a key space of <= 5, blocking bodies (a busy instance is "
+        "not dropped); non-trivial there = a fresh instance asks for what a dropped instance still has in the reference LRU, >= 1 hit.  distinct = different case after dropping meta; non-trivial = the reference cache sees >= 1 hit, "
         ">= 1 miss and (alru) >= 1 eviction / (per-instance) >= 2 instances or a drop / (lazy) a dirty- or ttl-forced recomputation; "
         "(family) >= 2 functions called, >= 1 hit, >= 1 miss and two functions meet on the same normalised arguments / key (or an "
         "eviction; lazy: a forced recomputation)")
@@ -35,7 +39,8 @@ TRUSTED = ["qcore.caching.LRUCache / get_args_tuple / get_kwargs_defaults (compi
            "and validated only by this correspondence",
            "the scheduler performs the gated operations in history order (highest-priority batch first: property C05); "
            "the runner records the order and the comparator rejects a run that deviates",
-           "CPython weakref callbacks / gc.collect() for the per-instance Drop operation",
+           "CPython weakref callbacks / gc.collect() for the per-instance Drop operation; for alru_cache methods Drop releases the runner's "
+           "references (instance table, exception tracebacks) - whether the object dies then depends on what the cache keeps",
            "monitors use inspect.signature(...).bind as the definition of 'normalised arguments'"]
 ASSUMPTIONS = ["returned values are the unique integers 100 + call id or one of ten payload kinds (None, 0, False, '', (), [], (None,), 2**70, "
                "0.0, {}), recognised in the runner by exact type and value; to the model every value is an integer code it never inspects "
@@ -50,7 +55,7 @@ ASSUMPTIONS = ["returned values are the unique integers 100 + call id or one of 
                "overwritten by that recomputation's completion, on both sides",
                "alazy_constant: the clock is positive and monotone in the monitored stream"]
 
-EXPLANATION = ("33 Coq theorems about Cache.v (see docs/C13.md) + differential run of every generated history through Cache.run_both and "
+EXPLANATION = ("35 Coq theorems about Cache.v (see docs/C13.md) + differential run of every generated history through Cache.run_both and "
                "through alru_cache / acached_per_instance / alazy_constant in both builds (results, cache sizes, body-run log per operation) + "
                "reference-cache monitors.  Families of functions decorated through shared or separate decorator objects are modelled as one "
                "cache machine per decorated function (proved: every function observes its own projection of the history) and monitored "
@@ -492,12 +497,34 @@ def exhaustive_cases():
     return cs
 
 
+GEN_LENS = [3, 4, 6, 8, 10, 14, 20, 30, 45]
+
+
+def gen_generations(rng):
+    """INSTANCE GENERATIONS: alru_cache (default key) on a method whose instances have different lifetimes.  `drop`
+    releases the program's references to the instance in a slot (+ gc); the next call on that slot is made on a fresh
+    instance - the next *generation* of the slot (CPython hands it the address of the dead one if that was freed).  The
+    remaining arguments come from a small key space, so a new generation soon repeats what a dead one has cached, while
+    the dead generation's entries may still be in the LRU."""
+    malformed = rng.random() < 0.1
+    sig = gen_sig(rng)
+    maxsize = rng.choice([1, 2, 3, 3, 4, 128, 128, 128])
+    if malformed and rng.random() < 0.1:
+        maxsize = rng.choice([0, -1])
+    ninst = rng.choice([1, 1, 2, 2, 3])
+    ops = gen_history(rng, sig, malformed, ninst, True, rng.choice(GEN_LENS))
+    return {"kind": "alru", "target": "method", "km": "default", "maxsize": maxsize, "sig": sig, "ops": ops, "gens": True,
+            "meta": {"malformed": malformed, "generations": True}}
+
+
 def gen_cases(rng, tier):
     n = 500 if tier == "quick" else 12000
     cs = [gen_case(rng) for _ in range(n)]
     cs += [gen_family(rng) for _ in range(200 if tier == "quick" else 4000)]
     ex = exhaustive_cases()
     cs += ex if tier != "quick" else rng.sample(ex, 40)
+    # drawn after everything else, so that the cases above are what they were before this class existed
+    cs += [gen_generations(rng) for _ in range(100 if tier == "quick" else 2500)]
     for c in cs:
         c["tree"] = case_tree(c)
     return cs
@@ -548,6 +575,16 @@ def _lazyop(o):
     return {"LTick": [o["dt"]]}
 
 
+def _goptree(o):
+    """operation of an alru_cache method history with instance generations -> gop tree (self is not in the call)"""
+    if o["op"] == "call":
+        cl = {"mkCall": [list(o["args"]), [{"": [k, v]} for k, v in o["kw"]]]}
+        return {"GCall": [o["id"], o["inst"], cl, bool(o["bl"]), _body(o["body"])]}
+    if o["op"] == "finish":
+        return {"GFinish": [o["id"]]}
+    return {"GDrop": [o["inst"]]}
+
+
 def is_family(c):
     return "fns" in c
 
@@ -570,6 +607,8 @@ def case_tree(c):
         return {"CLazy": [c["ttl"], c["now0"], [_lazyop(o) for o in c["ops"]]]}
     method = kind == "alru" and c["target"] == "method"
     st = _sigtree(c["sig"], method)
+    if c.get("gens"):
+        return {"CAlruG": [c["maxsize"], st, [_goptree(o) for o in c["ops"]]]}
     ops = [t for t in (_optree(kind, method, o) for o in c["ops"]) if t is not None]
     if kind == "alru":
         return {"CAlru": [_kmt(c["km"]), c["maxsize"], st, ops]}
@@ -603,6 +642,15 @@ CORPUS_RAW = [
     {"kind": "lazy", "ttl": 0, "now0": 1,
      "ops": [_call(0, [], []), {"op": "tick", "dt": 1000}, _call(1, [], []), {"op": "dirty"}, _call(2, [], []), _call(3, [], [])]},
     {"kind": "alru", "target": "fn", "km": "default", "maxsize": 0, "sig": {"pos": [[0, None]], "kw": [], "varkw": False}, "ops": [_call(0, [1], [])]},
+    # instance generations (alru_cache on a method): the instance is dropped, the next call on the slot is made on a fresh
+    # instance (same address, if the dead one was freed) with the same remaining arguments: a miss, the body runs
+    {"kind": "alru", "target": "method", "km": "default", "maxsize": 128, "gens": True, "sig": {"pos": [[0, 2]], "kw": [], "varkw": False},
+     "ops": [_call(0, [1], [], inst=0), {"op": "drop", "inst": 0}, _call(1, [1], [], inst=0), _call(2, [], [[0, 1]], inst=0)]},
+    # ... two slots, a busy instance is not dropped, the dead generation's entry still counts in the LRU order (maxsize 2)
+    {"kind": "alru", "target": "method", "km": "default", "maxsize": 2, "gens": True, "sig": {"pos": [[0, None]], "kw": [], "varkw": False},
+     "ops": [_call(0, [1], [], inst=0), _call(1, [1], [], inst=1), {"op": "drop", "inst": 0}, _call(2, [1], [], inst=0), _call(3, [1], [], inst=1),
+             _call(4, [2], [], True, None, 1), {"op": "drop", "inst": 1}, {"op": "finish", "id": 4}, {"op": "drop", "inst": 1},
+             _call(5, [2], [], inst=1), _call(6, [1], [], inst=0), {"op": "drop", "inst": 0}, {"op": "drop", "inst": 0}, _call(7, [1], [], inst=0)]},
     # value kinds: a body that returns None (0, False, '', ...) is cached like any other; the second call is a hit
     {"kind": "alru", "target": "fn", "km": "default", "maxsize": 2, "sig": {"pos": [[0, None], [1, 2]], "kw": [], "varkw": False},
      "ops": [_call(0, [1], [], body=["ret", 9001]), _call(1, [1], [], body=["ret", 9001]), _call(2, [], [[0, 1]], body=["ret", 9001]),
@@ -717,6 +765,11 @@ class _Ref:
         self.forced = 0
         self.drops = 0
         self.first_call_of_key = {}
+        self.gens = bool(c.get("gens"))
+        self.gen = {}            # generations: slot -> generation of the instance now in it
+        self.pend_slot = {}      # generations: id of a pending call -> slot of its instance
+        self.key_at = {}         # call id -> the key it had when it was made (the generation of a slot changes)
+        self.stale = 0           # calls of a new generation whose remaining arguments a dead generation still has in the LRU
 
     def key(self, o):
         c = self.c
@@ -728,7 +781,8 @@ class _Ref:
         if n is None:
             return None, False
         if method:
-            n = (("self", o["inst"]),) + n[1:]
+            # the instance is an argument like any other; an instance is a (slot, generation) pair
+            n = (("self", (o["inst"], self.gen.get(o["inst"], 0)) if self.gens else o["inst"]),) + n[1:]
         elif c["kind"] == "inst":
             n = n[1:]
         return n, True
@@ -774,6 +828,8 @@ def walk(c, impl_rs=None, body_runs=None):
     if kind == "alru" and c["maxsize"] <= 0:
         return R if impl_rs is None else fs
     tag = kind if kind != "alru" else "alru:%s:%s" % (c["km"] if isinstance(c["km"], str) else "sum", c["target"])
+    if c.get("gens"):
+        tag += ":generations"
     if c.get("_family"):        # the projection of a family history onto one of its functions (see family_monitors)
         tag += ":" + c["_family"]
     producers = {}     # value -> ids of the calls whose bodies produced it (one id for the unique integers, several for payloads)
@@ -873,7 +929,16 @@ def walk(c, impl_rs=None, body_runs=None):
             continue
 
         # ------------------------------------------------ alru / inst
-        if name == "drop":
+        if name == "drop" and R.gens:
+            # alru_cache on a method: the program lets go of the instance; whatever the LRU holds for it stays where it
+            # is (the reference cache is keyed on the instance like on any argument) but can never be asked for again
+            busy = o["inst"] in R.pend_slot.values()
+            if impl_rs is not None and got != ("RBusy" if busy else "RUnit"):
+                return fs
+            if not busy:
+                R.gen[o["inst"]] = R.gen.get(o["inst"], 0) + 1
+                R.drops += 1
+        elif name == "drop":
             busy = any(i == o["inst"] for (_, i) in R.pending)
             if impl_rs is not None and got != ("RBusy" if busy else "RUnit"):
                 return fs          # the harness refused / performed the drop differently: not a statement clause
@@ -883,6 +948,7 @@ def walk(c, impl_rs=None, body_runs=None):
         elif name == "finish":
             p = R.pending.pop((o["id"], o.get("inst") if kind == "inst" else None), None)
             pend_spell.pop((o["id"], o.get("inst") if kind == "inst" else None), None)
+            R.pend_slot.pop(o["id"], None)
             if p is None:
                 want = "RNoop"
             elif p[1][0] == "ret":
@@ -897,6 +963,7 @@ def walk(c, impl_rs=None, body_runs=None):
                 return fs
         else:
             key, binds = R.key(o)
+            R.key_at[o["id"]] = key
             spell_of[o["id"]] = (o["args"], sorted(map(tuple, o["kw"])), o.get("inst"))
             if kind == "inst":
                 R.inst.setdefault(o["inst"], {})
@@ -914,6 +981,8 @@ def walk(c, impl_rs=None, body_runs=None):
                     want = {"RHit": [e[1]]}
                 else:
                     R.misses += 1
+                    if R.gens and any(_other_instance(x[0], key) and _dead(R, x[0]) for x in R.lru):
+                        R.stale += 1
                     if binds and any(sp != spell_of[o["id"]] for sp in pend_spell.values()):
                         taint[0] = True
                     if not binds:
@@ -922,6 +991,8 @@ def walk(c, impl_rs=None, body_runs=None):
                         want = "RPending"
                         R.pending[(o["id"], o.get("inst") if kind == "inst" else None)] = (key, o["body"])
                         pend_spell[(o["id"], o.get("inst") if kind == "inst" else None)] = spell_of[o["id"]]
+                        if R.gens:
+                            R.pend_slot[o["id"]] = o["inst"]
                     elif o["body"][0] == "ret":
                         want = {"RMiss": [o["body"][1]]}
                         R.put(o.get("inst"), key, o["body"][1], o["id"])
@@ -942,6 +1013,14 @@ def walk(c, impl_rs=None, body_runs=None):
                         srckey = _key_of_id(R, c, src) if src is not None else None
                         if src is None:
                             finding("refines-reference", "hit-unknown-value", "returned %s which no completed body produced" % v, k)
+                        elif R.gens and _other_instance(srckey, key):
+                            dead = _dead(R, srckey)
+                            finding("no-cross-talk", "hit-on-dead-instance-value" if dead else "hit-on-other-live-instance-value",
+                                    "call %d %s on the instance in slot %d (generation %d) received %s without running its body; that value was "
+                                    "computed by call %d on a different instance, the one of generation %d in slot %d%s; the reference cache has "
+                                    "nothing for the instance called"
+                                    % (o["id"], _show(o), key[0][1][0], key[0][1][1], v, src, srckey[0][1][1], srckey[0][1][0],
+                                       ", which the program had dropped before" if dead else ""), k)
                         elif srckey != key:
                             if kind == "inst" and spell_of[src][2] != spell_of[o["id"]][2]:
                                 finding("per-instance-independent", "hit-on-other-instance-value",
@@ -1000,7 +1079,20 @@ def _show(o):
     return "(%s)" % ", ".join([str(a) for a in o["args"]] + ["%s=%s" % (pname(n), v) for n, v in o["kw"]])
 
 
+def _other_instance(k1, k2):
+    """two keys of a method with instance generations: same remaining arguments, different instance (slot, generation)"""
+    return bool(k1 and k2 and k1[0][0] == "self" and k2[0][0] == "self" and k1[1:] == k2[1:] and k1[0][1] != k2[0][1])
+
+
+def _dead(R, k):
+    """is the instance in key k one the program has dropped?"""
+    slot, g = k[0][1]
+    return R.gen.get(slot, 0) != g
+
+
 def _key_of_id(R, c, cid):
+    if cid in R.key_at:
+        return R.key_at[cid]
     for o in c["ops"]:
         if o["op"] == "call" and o["id"] == cid:
             return R.key(o)[0]
@@ -1210,6 +1302,9 @@ def nontrivial(c):
             return False
         return st["forced"] >= 1 if c["kind"] == "lazy" else (family_collides(st) or st["evictions"] >= 1)
     R = walk(c)
+    if c.get("gens"):
+        # a fresh instance asks for what a dropped instance still has in the reference LRU, and something is hit
+        return R.hits >= 1 and R.drops >= 1 and R.stale >= 1
     if c["kind"] == "alru":
         return R.hits >= 1 and R.misses >= 1 and R.evictions >= 1
     if c["kind"] == "inst":
@@ -1222,6 +1317,7 @@ def distribution(cases):
     d = {"kind": {}, "km": {}, "maxsize": {}, "oplen": {}, "malformed": 0, "exhaustive_spelling_pairs": 0, "blocking_calls": 0,
          "raising_bodies": 0, "calls": 0, "drops": 0, "finishes": 0, "sig_positional": {}, "sig_defaults": {}, "sig_kwonly": {}, "sig_varkw": 0,
          "payload_bodies": {}, "cases_with_payload_hit_expected": 0,
+         "generations": {"cases": 0, "drops_performed": 0, "cases_with_dead_generation_entry_asked_again": 0},
          "family": {"cases": 0, "kind": {}, "functions": {}, "decorator_sharing": {}, "same_signature": 0,
                     "coinciding_keys_across_functions": 0, "reference_evictions": 0}}
     for c in cases:
@@ -1240,8 +1336,14 @@ def distribution(cases):
                 st = family_stats(c)
                 F["coinciding_keys_across_functions"] += 1 if family_collides(st) else 0
                 F["reference_evictions"] += 1 if st["evictions"] else 0
-        k = ("family:" if is_family(c) else "") + c["kind"] + (":" + c["target"] if c["kind"] == "alru" else "")
+        k = ("family:" if is_family(c) else "") + c["kind"] + (":" + c["target"] if c["kind"] == "alru" else "") + (":generations" if c.get("gens") else "")
         d["kind"][k] = d["kind"].get(k, 0) + 1
+        if c.get("gens") and c["maxsize"] > 0:
+            G = d["generations"]
+            Rg = walk(c)
+            G["cases"] += 1
+            G["drops_performed"] += Rg.drops
+            G["cases_with_dead_generation_entry_asked_again"] += 1 if Rg.stale else 0
         if c["kind"] == "alru" and not is_family(c):
             km = c["km"] if isinstance(c["km"], str) else "sum"
             d["km"][km] = d["km"].get(km, 0) + 1
